@@ -348,6 +348,9 @@ theorem runHandler_inv {B : Nat} (hops : List HOp) (o : O) (c : Option Nat) (br 
       exact hinv_resp o _ c br h (fun S hi => step_inv e o rop hi)
 
 /-- between Parse calls / handler calls: the response holds nothing -/
+theorem rinv_forget' (h : Heap) (c b) (hi : RInv h c b) : RInv h c [] :=
+  ⟨hi.ok, hi.fresh, hi.cl, (by intro id hid; cases hid), List.nodup_nil, (by intro id _ hid; cases hid)⟩
+
 structure PInv (s : PS) : Prop where
   rinv : RInv s.heap (s.cache.map (·.1)) (bids (s.body.getD {}))
   e1 : s.o.buffer = none
@@ -356,6 +359,9 @@ structure PInv (s : PS) : Prop where
 theorem complete_inv (s : PS) (hd : Handler) (h : PInv s) : PInv (complete s hd).1 := by
   unfold complete
   dsimp only
+  split
+  · have r := brClose_inv s.heap (s.body.getD {}) _ h.rinv
+    exact ⟨rinv_forget' _ _ _ r, rfl, rfl⟩
   have h0 : HInv s.heap.next { heap := s.heap } (s.cache.map (·.1)) (s.body.getD {}) := by
     refine ⟨⟨h.rinv.ok, h.rinv.fresh, ?_, ?_, ?_, ?_, ?_, (by intro x _ hc; cases hc), Nat.le_refl _⟩, h.rinv,
       fun id hid => h.rinv.fresh id (h.rinv.cl id hid), fun id hid => h.rinv.fresh id (h.rinv.bl id hid)⟩
@@ -406,7 +412,7 @@ theorem events_inv (capOf : Nat → Nat) (maxBody : Nat) (hd : Handler) (evs : L
       dsimp only
       have hc := complete_inv s hd h
       have hcc : (complete s hd).1.cache = s.cache ∧ (complete s hd).1.closed = s.closed := by
-        unfold complete; exact ⟨rfl, rfl⟩
+        unfold complete; dsimp only; split <;> exact ⟨rfl, rfl⟩
       generalize complete s hd = p at *
       obtain ⟨s1, out⟩ := p
       dsimp only at hc hcc ⊢
